@@ -69,7 +69,7 @@ func (c10Prop) Assumptions() []string {
 	}
 }
 
-var c10Types = []string{"Mixed", "Nested", "Ptrs", "Slices", "Maps", "Timed", "Flat", "Mixed", "Nested", "PlainOmit", "Omit", "PtrSlices", "PtrSlices", "Nulls"}
+var c10Types = []string{"Mixed", "Nested", "Ptrs", "Slices", "Maps", "Timed", "Flat", "Mixed", "Nested", "PlainOmit", "Omit", "PtrSlices", "PtrSlices", "Nulls", "NullPtrs", "NullPtrs", "Timed"}
 
 var c10AllocTypes = []reflect.Type{
 	reflect.TypeFor[int64](), reflect.TypeFor[bool](), reflect.TypeFor[string](), reflect.TypeFor[[]byte](),
@@ -116,6 +116,8 @@ func (c10Prop) Generate(seed uint64, idx int, tier string) *Plan {
 			op.Op = "abort"
 		case x < 75:
 			op.Op = "gc"
+		case x < 78:
+			op.Op = "restart"
 		case x < 81:
 			op.Op = "ualloc"
 		case x < 87:
@@ -124,8 +126,10 @@ func (c10Prop) Generate(seed uint64, idx int, tier string) *Plan {
 			op.Op = "rnew"
 		case x < 93:
 			op.Op = "ralloc"
-		case x < 96:
+		case x < 95:
 			op.Op = "rstr"
+		case x < 98:
+			op.Op = "rdecode"
 		default:
 			op.Op = "rextract"
 		}
@@ -249,6 +253,8 @@ type c10Task struct {
 	started   bool
 	finished  bool
 	delivered int
+	out       any
+	aborted   bool
 }
 
 var errC10Abort = errors.New("c10: abort")
@@ -498,9 +504,16 @@ func (c10Prop) Execute(p *Plan, run *Run) any {
 	pool.freshAll = false
 	pool.free = nil // banks closed during the reference reads are not offered
 
-	for _, t := range tasks {
-		t := t
-		rd := NewDiskReader(t.bf.Bytes, pl.Chunks[t.idx%len(pl.Chunks)])
+	// startTask launches (or relaunches) a reader task. A task whose plan says
+	// so passes ReadFile a pointer to ONE struct it owns and reuses that same
+	// struct when it is restarted after finishing or being aborted.
+	startTask := func(t *c10Task) {
+		ch := pl.Chunks[t.idx%len(pl.Chunks)]
+		rd := NewDiskReader(t.bf.Bytes, ch)
+		if t.out == nil {
+			t.out = outFor(t.bf.Desc.Type, ch.OutPtr)
+		}
+		out := t.out
 		go func() {
 			if cmd := <-t.toTask; cmd == 1 {
 				t.fromTask <- c10Delivery{done: true, err: errC10Abort}
@@ -514,7 +527,7 @@ func (c10Prop) Execute(p *Plan, run *Run) any {
 						d.panic, d.site = r, panicSite()
 					}
 				}()
-				d.err = avro.ReadFile(rd, reflect.New(t.bf.Desc.Type).Elem().Interface(), func(val unsafe.Pointer, rb *avro.ResourceBank) error {
+				d.err = avro.ReadFile(rd, out, func(val unsafe.Pointer, rb *avro.ResourceBank) error {
 					t.fromTask <- c10Delivery{val: val, rb: rb}
 					if cmd := <-t.toTask; cmd == 1 {
 						return errC10Abort
@@ -524,6 +537,9 @@ func (c10Prop) Execute(p *Plan, run *Run) any {
 			}()
 			t.fromTask <- d
 		}()
+	}
+	for _, t := range tasks {
+		startTask(t)
 	}
 	defer func() {
 		for _, t := range tasks {
@@ -539,6 +555,25 @@ func (c10Prop) Execute(p *Plan, run *Run) any {
 			}
 		}
 	}()
+
+	// a prepared codec and encoded records for the direct ReadBuf user
+	decType := reflect.TypeFor[Ptrs]()
+	var decCodec avro.Codec
+	var decValues []reflect.Value
+	var decPayloads [][]byte
+	if sch, err := avro.SchemaForType(Ptrs{}); err == nil {
+		if c, err := sch.Codec(Ptrs{}); err == nil {
+			decCodec = c
+			decValues = GenValues(decType, 4, pl.VSeed^0xdec, 1)
+			for _, v := range decValues {
+				decPayloads = append(decPayloads, ownEncoding(c, v))
+			}
+		}
+	}
+	if decCodec == nil {
+		run.Probes.Inc("skipped:workload-unbuildable")
+		return nil
+	}
 
 	var helds []*c10Held
 	var leaked []*c10Held // allocations on dropped ReadBufs: never closed, always live
@@ -707,6 +742,7 @@ func (c10Prop) Execute(p *Plan, run *Run) any {
 			cmd := 0
 			if op.Op == "abort" {
 				cmd = 1
+				t.aborted = true
 				run.Faults.Inc("CB-err(abort mid-file)")
 			}
 			t.started = true
@@ -756,6 +792,19 @@ func (c10Prop) Execute(p *Plan, run *Run) any {
 			}
 			sigged()
 			checkAll(opi, what)
+		case "restart":
+			// A finished or aborted reader reads its file again — into the same
+			// caller-owned struct when it uses a pointer `out`. Records kept
+			// from the earlier pass (banks still open) must stay as delivered.
+			t := tasks[op.A%len(tasks)]
+			if !t.finished {
+				run.Log.Add("op %d restart task %d still running", opi, t.idx)
+				continue
+			}
+			t.finished, t.started, t.aborted, t.delivered = false, false, false, 0
+			startTask(t)
+			run.Probes.Inc("task-restarted")
+			run.Log.Add("op %d restart task %d", opi, t.idx)
 		case "gc":
 			// A collection may run at any time in a real program: everything
 			// still held must survive it (and the reuse of whatever it freed).
@@ -811,7 +860,7 @@ func (c10Prop) Execute(p *Plan, run *Run) any {
 			run.Log.Add("op %d %s held %d", opi, what, h.id)
 			sigged()
 			checkAll(opi, what)
-		case "rnew", "ralloc", "rstr", "rextract":
+		case "rnew", "ralloc", "rstr", "rextract", "rdecode":
 			pool.curTask = 99
 			executed++
 			run.Evals++
@@ -856,6 +905,30 @@ func (c10Prop) Execute(p *Plan, run *Run) any {
 					}
 					rbufHeld.strs = append(rbufHeld.strs, c10Str{s: s, want: string(rbufData[off : off+n])})
 				}
+			case "rdecode":
+				// Reset the ReadBuf onto a record's encoding and decode it with a
+				// prepared codec: everything allocated on this ReadBuf's bank so
+				// far stays live (Reset must not recycle the bank).
+				di := op.B % len(decPayloads)
+				v := reflect.New(decType).Elem()
+				var err error
+				if pan, site := lib(func() {
+					rbuf.Reset(decPayloads[di])
+					err = decCodec.Read(rbuf, v.Addr().UnsafePointer())
+				}); pan != nil {
+					fail(opi, "c10/panic", site, fmt.Sprintf("op %d: Reset+Codec.Read panicked: %v", opi, pan))
+					break
+				}
+				if err != nil {
+					fail(opi, "c10/read-differs-under-recycling", what, fmt.Sprintf("op %d: decoding a valid record through a reused ReadBuf failed: %v", opi, err))
+					break
+				}
+				if ok, where := EqualNorm(decValues[di], v); !ok {
+					fail(opi, "c10/inherited-or-corrupt-at-delivery", what, fmt.Sprintf("op %d: record decoded through a reused ReadBuf differs from the value encoded: %s", opi, where))
+					break
+				}
+				rbufData = decPayloads[di]
+				rbufHeld.objs = append(rbufHeld.objs, c10Obj{v: v, shadow: DeepCopy(v)})
 			case "rextract":
 				var rb *avro.ResourceBank
 				if pan, site := lib(func() { rb = rbuf.ExtractResourceBank() }); pan != nil {
